@@ -35,7 +35,7 @@ MANIFEST = {
 SHAPES_Q = [
     "nullable-start", "nullable-mid", "nullable-end", "two-nullables", "nullable-chain", "hidden-left", "opt-list",
     "paren", "midrec", "reduce-many-empty", "right-nullable", "empty-only", "leftrec", "ambig-concat", "first-empty",
-    "known-c02",
+    "known-c02", "glr-update-span",
 ]
 
 LAYOUT_STR = "\nLAYOUT: LItem | LAYOUT LItem | EMPTY;\nLItem: SP | TB;\n"
